@@ -59,6 +59,9 @@ fn clean_command(path: &str) -> Result<()> {
 
     for path in paths {
         let path = path?;
+        if path.file_type()?.is_dir() {
+            continue;
+        }
         if Path::new(&path.file_name())
             .extension()
             .is_some_and(|ext| ext == "mmm")
